@@ -72,6 +72,18 @@ import numpy as np
 
 from vf.rt.harness import oracle, Bounded, replay_file, close  # noqa: F401
 
+
+def _relclose(a, b, tol, ref=None):
+    """|a - b| <= tol * ref elementwise, ref = max |b| unless given: a comparison RELATIVE to the size of the data (the
+    harness' close() never goes below an absolute 1.0 as scale and so accepts anything for data in units of 1e-12)"""
+    a = np.asarray(a, dtype=float)
+    b = np.asarray(b, dtype=float)
+    if a.shape != b.shape or not np.isfinite(a).all():
+        return False
+    if ref is None:
+        ref = float(np.abs(b).max()) if b.size else 0.0
+    return bool(a.size == 0 or np.abs(a - b).max() <= tol * ref)
+
 # =====================================================================================================
 # BIDS
 # =====================================================================================================
@@ -89,8 +101,16 @@ BIDS_FAMILIES = {
                   desc='smoothed6mm', modality='anat', suffix='T1w'),
     'camel': dict(derivative='fmriprep', sub='uB12u', ses='eSe', task='Task', run='Run1', space='MNI152NLin2009cAsym',
                   desc='Desc', modality='func', suffix='boldref'),
+    # sweep: the SAME value in every entity (a rebuild by textual substitution of a value hits the wrong entity) and
+    # one-character values that are a letter of their own key (nothing is left after stripping a character set)
+    'all-values-equal': dict(derivative='01', sub='01', ses='01', task='01', run='01', space='01', desc='01',
+                             modality='fmap', suffix='epi'),
+    'single-char-own-key-letter': dict(derivative='d', sub='s', ses='e', task='k', run='n', space='p', desc='c',
+                                       modality='dwi', suffix='dwi'),
 }
 BIDS_EXTS = ['nii', 'nii.gz']
+BIDS_EXTS_SWEEP = ['json', 'dtseries.nii', 'tsv', 'tsv.gz', 'func.gii', 'fif']      # other valid single / multi-part extensions
+BIDS_ROOTS_SWEEP = ['/data/bids/', 'rel/bids', '/data/my study/bids.v2', '.']
 BIDS_SIBS = [['brain', 'mask'], ['confounds', 'timeseries'], ['desc', 'dseg'], ['aparcaseg', 'dseg']]
 BIDS_ATTRS = ['derivative', 'sub', 'ses', 'task', 'run', 'space', 'desc', 'modality', 'suffix', 'ext']
 
@@ -224,6 +244,54 @@ def orc_bids_lookups(case):
     return None
 
 
+def _bids_all_lookups(layout, f, ents, sibs, reverse=False):
+    """every look-up of the layout on `f` as (name, relpath, expected relpath from the own builder), in the given call order"""
+    jobs = [('meta', lambda: layout.find_meta_for(f), dict(ents, ext='json')),
+            ('events', lambda: layout.find_events_for(f),
+             dict(ents, derivative=None, space=None, desc=None, suffix='events', ext='tsv'))]
+    for desc, suffix in sibs:
+        jobs.append((f'mri-sibling {desc} {suffix}', lambda d=desc, x=suffix: layout.find_mri_sibling_of(f, d, x),
+                     dict(ents, desc=desc, suffix=suffix)))
+        jobs.append((f'table-sibling {desc} {suffix}', lambda d=desc, x=suffix: layout.find_table_sibling_of(f, d, x),
+                     dict(ents, desc=desc, suffix=suffix, ext='tsv', space=None)))
+    jobs.append(('rebuild', lambda: types.SimpleNamespace(relpath=layout._replace(f, {})), dict(ents)))
+    if reverse:
+        jobs = jobs[::-1]
+    return [(name, fn().relpath, _bids_build(want)) for name, fn, want in jobs]
+
+
+@oracle('C20/bids-sequence')
+def orc_bids_sequence(case):
+    """call sequences: every look-up gives the path of the own builder whatever was looked up before on the same file object,
+    on the same layout for ANOTHER file with the same entities present (other values), in whatever order, and when repeated;
+    the dict of replacements handed to _replace and the base objects are left as they were"""
+    from rsatoolbox.io.bids import BidsLayout, BidsMriFile
+    ents, other = case['ents'], case['other']
+    path, opath = _bids_build(ents), _bids_build(other)
+    layout = BidsLayout('/data/bids', nibabel=object())
+    f = BidsMriFile(path, layout, None)
+    g = BidsMriFile(opath, layout, None)
+    before_f, before_g = _bids_attrs(f), _bids_attrs(g)
+    passes = [('first pass', f, ents, False), ('other file of the same shape', g, other, False),
+              ('second pass after the look-ups for ' + opath, f, ents, False), ('reversed call order', f, ents, True),
+              ('other file, reversed call order', g, other, True),
+              ('a new object for the same path', BidsMriFile(path, layout, None), ents, False)]
+    for label, obj, e, rev in passes:
+        for name, got, want in _bids_all_lookups(layout, obj, e, case['sibs'], reverse=rev):
+            if got != want:
+                return f'{obj.relpath}: {name} ({label}) is {got}, expected {want}'
+    repl = dict(desc='brain', suffix='mask', ext='json')
+    keep = dict(repl)
+    got = layout._replace(f, repl)
+    if repl != keep:
+        return f'{path}: _replace modified the dict of replacements: {keep} -> {repl}'
+    if got != _bids_build(dict(ents, **keep)):
+        return f'{path}: _replace with {keep} gives {got}'
+    if _bids_attrs(f) != before_f or _bids_attrs(g) != before_g or f.relpath != path or g.relpath != opath:
+        return f'{path}: the look-ups modified a base file object'
+    return None
+
+
 class _FakeNib:
     """stands in for nibabel: load(path).get_fdata() returns the path so that the oracle sees which file was read"""
 
@@ -251,8 +319,10 @@ def orc_bids_files(case):
             with open(full, 'w') as fh:
                 fh.write(text)
 
+        salt = case.get('salt', 0)   # sweep: the same relative paths with OTHER content in another root (stale cache by path)
+
         def tag(rel):          # content is a function of the place of the file, so shared files (events) are consistent
-            return sum(map(ord, rel)) % 97
+            return (sum(map(ord, rel)) + salt) % 97
 
         expected = []
         for ents in ents_list:
@@ -269,8 +339,19 @@ def orc_bids_files(case):
                 if tasks is None or any(('task-' + t) in rel for t in tasks):
                     expected.append(rel)
         layout = BidsLayout(root, nibabel=_FakeNib())
-        found = layout.find_mri_derivative_files(ents_list[0]['derivative'], desc, tasks)
+        if case.get('tasks_as') == 'tuple' and tasks is not None:          # container type of the task filter
+            tasks_arg = tuple(tasks)
+        elif case.get('tasks_as') == 'ndarray' and tasks is not None:
+            tasks_arg = np.array(tasks)
+        else:
+            tasks_arg = None if tasks is None else list(tasks)
+        found = layout.find_mri_derivative_files(ents_list[0]['derivative'], desc, tasks_arg)
         got = [f.relpath for f in found]
+        if isinstance(tasks_arg, list) and tasks_arg != tasks:
+            return f'find_mri_derivative_files modified its list of tasks: {tasks} -> {tasks_arg}'
+        again = [f.relpath for f in layout.find_mri_derivative_files(ents_list[0]['derivative'], desc, tasks_arg)]
+        if again != got:
+            return f'find_mri_derivative_files called twice: {got} then {again}'
         if sorted(got) != sorted(expected):
             return f'find_mri_derivative_files(desc={desc}, tasks={tasks}) found {sorted(got)}, expected {sorted(expected)}'
         if len(set(got)) != len(got):
@@ -287,6 +368,8 @@ def orc_bids_files(case):
             meta = f.get_meta()
             if meta != dict(RepetitionTime=1.5 + tag(mrel), marker=mrel):
                 return f'{rel}: get_meta returned {meta}, the sidecar is {mrel}'
+            if f.get_meta() != dict(RepetitionTime=1.5 + tag(mrel), marker=mrel):
+                return f'{rel}: a second get_meta returned {f.get_meta()}, the sidecar is {mrel}'
             erel = _bids_build(dict(ents, derivative=None, space=None, desc=None, suffix='events', ext='tsv'))
             ev = f.get_events()
             if list(ev.columns) != ['onset', 'duration', 'trial_type'] or list(ev.trial_type) != ['c%d' % tag(erel), 'face'] \
@@ -320,8 +403,14 @@ def _fake_epochs(case):
     n_ep, n_ch, n_t = case['n_epochs'], case['n_channels'], case['n_times']
     rs = np.random.RandomState(case['seed'])
     data = (np.arange(n_ep * n_ch * n_t, dtype=float).reshape(n_ep, n_ch, n_t) + 0.5) * 1e-6
+    # sweep: other legitimate units (MEG data in tesla ~1e-15, data rescaled to microvolts ...) and typed data
+    data = (data + case.get('offset', 0.0) * 1e-6) * case.get('scale', 1.0)
+    if case.get('dtype'):
+        if np.dtype(case['dtype']).kind != 'f':
+            data = np.arange(n_ep * n_ch * n_t).reshape(n_ep, n_ch, n_t) * 3 - 7 + int(case.get('offset', 0))
+        data = data.astype(case['dtype'])
     codes = rs.randint(1, 5, size=n_ep) * 10 + 1
-    events = np.stack([1000 + 100 * np.arange(n_ep), np.full(n_ep, 7), codes], axis=1).astype(int)
+    events = np.stack([1000 + 100 * np.arange(n_ep), np.full(n_ep, 7), codes], axis=1).astype(case.get('events_dtype', int))
     ch = [('A%d' % (i + 1) if i % 2 == 0 else 'X%d' % (32 - i)) for i in range(n_ch)]
     times = case.get('tmin', -0.1) + np.arange(n_t) / case.get('sfreq', 20.0)
     return _FakeEpochs(data, events, ch, times), data, codes, ch, times
@@ -364,6 +453,28 @@ def orc_mne_epochs(case):
         return r
     if given is not None and given != descs:
         return 'the descriptors argument was modified'
+    if not np.array_equal(epo._data, keep) or epo._data.dtype != keep.dtype or list(epo.events[:, 2]) != list(codes) \
+            or list(epo.ch_names) != list(ch) or not np.array_equal(epo.times, times):
+        return 'the epochs object was modified'
+    if case.get('sequence'):
+        # call sequence: a second epochs object of the same shape with other content, then the first one again; what the caller
+        # did with the first result (a descriptor added) must not reach later results, the first result must stay as it was
+        ds.descriptors['added-by-the-caller'] = 1
+        case2 = dict(case, seed=case['seed'] + 1, offset=1e4)
+        epo2, data2, codes2, ch2, times2 = _fake_epochs(case2)
+        ds2 = dataset_from_epochs(epo2, None if descs is None else dict(descs)) if case.get('pass_descriptors', True) \
+            else dataset_from_epochs(epo2)
+        r = _check_epochs_dataset(ds2, data2.copy(), codes2, ch2, times2, descs or {})
+        if r:
+            return 'second epochs object of the same shape: ' + r
+        ds3 = dataset_from_epochs(epo, None if descs is None else dict(descs)) if case.get('pass_descriptors', True) \
+            else dataset_from_epochs(epo)
+        r = _check_epochs_dataset(ds3, keep, codes, ch, times, descs or {})
+        if r:
+            return 'same epochs object converted again: ' + r
+        r = _check_epochs_dataset(ds, keep, codes, ch, times, dict(descs or {}, **{'added-by-the-caller': 1}))
+        if r:
+            return 'the first result changed when the function was called again: ' + r
     return None
 
 
